@@ -26,7 +26,7 @@ def common():
     return _common
 
 
-ROUTES = ["entries", "entries", "from_string", "from_string_crlf", "from_file", "from_dotbracket"]
+ROUTES = ["entries", "entries", "from_string", "from_string_crlf", "from_file", "from_dotbracket", "from_multistrand"]
 
 
 def make_bpseq(triples, route="entries", tmpdir=None):
@@ -56,6 +56,24 @@ def make_bpseq(triples, route="entries", tmpdir=None):
         n, pairs = oracles.pairs_of_triples(triples)
         seq = oracles.sequence_of_triples(triples)
         return c.BpSeq.from_dotbracket(c.DotBracket.from_string(seq, oracles.fcfs_ref(n, pairs)))
+    if route == "from_multistrand":
+        # a two-strand notation of the structure (reference first-come-first-served levels), the chain break placed
+        # inside a stem when there is one; the multi-strand reader only knows IUPAC letters
+        import re
+
+        n, pairs = oracles.pairs_of_triples(triples)
+        seq = oracles.sequence_of_triples(triples)
+        if n < 2 or not re.fullmatch(r"[ACGTURYSWKMBDHVNacgturyswkmbdhvn.-]+", seq):
+            return c.BpSeq([c.Entry(int(i), str(ch), int(j)) for i, ch, j in triples])
+        structure = oracles.fcfs_ref(n, pairs)
+        cut = n // 2
+        for i, j, length in oracles.stems(pairs):
+            if length >= 2:
+                cut = i  # between the first two residues of the 5' strand of the first longer stem
+                break
+        cut = min(max(cut, 1), n - 1)
+        text = ">strand_A\n%s\n%s\n>strand_B\n%s\n%s\n" % (seq[:cut], structure[:cut], seq[cut:], structure[cut:])
+        return c.BpSeq.from_dotbracket(c.MultiStrandDotBracket.from_string(text))
     raise HarnessError("unknown construction route %r" % route)
 
 
